@@ -3,7 +3,7 @@
 # worktree of /repo's HEAD: applies, builds, the pinned suite passes, the demonstration fails with the change and passes
 # without it; then imports it as /verif/seeded/<Cxx>-<mN>/ and runs the property's quick check against it.
 id=$1; x=$2; mn=$3
-out=/tmp/w3-$id-out/$x
+out=/tmp/${WAVE:-w3}-$id-out/$x
 wt=/tmp/cf-$id-$x
 export PATH=/root/go/pkg/mod/golang.org/toolchain@v0.0.1-go1.24.2.linux-amd64/bin:$PATH GOFLAGS=-mod=mod GOPROXY=off
 [ -f $out/patch.diff ] || { echo "RESULT $id-$x no-patch"; exit 1; }
@@ -47,7 +47,8 @@ sr=open('/tmp/cf-%s-%s.seedrun'%(id,x)).read()
 viol=[l for l in sr.splitlines() if 'VIOLATION' in l]
 nofail='no-failing-input-found' in sr
 rc=re.search(r'exit=(\d+)',sr)
-meta={"property":id,"origin":"wave 3 sub-agent (given only the property text and a scratch worktree), change %s"%x,
+import os
+meta={"property":id,"origin":"wave %s sub-agent (given only the property text and a scratch worktree), change %s"%(os.environ.get("WAVE","w3")[1:],x),
  "what_it_breaks_and_needs":notes[:1800],
  "agent_demo":"go test %s -vet=off -count=1 -run %s ./%s/ (demo file: *_test.go.txt in this directory, copy into %s/)"%(race,run,pkg,pkg),
  "confirmed":"tools/wave3.sh: applied to a scratch worktree of /repo HEAD, go build ok, pinned suite passes with it (private netns), demonstration fails with the change and passes without it",
